@@ -4,6 +4,8 @@ import (
 	"fmt"
 	"strings"
 
+	"github.com/wundergraph/graphql-go-tools/v2/pkg/engine/resolve"
+
 	"github.com/vektah/gqlparser/v2"
 	gast "github.com/vektah/gqlparser/v2/ast"
 	"pgregory.net/rapid"
@@ -27,8 +29,8 @@ const (
 	findingDupPath = "C02-error-path-repeats-last-segment"
 	findingPanic   = "C02-nullable-inner-list-null-panic"
 	// planner findings (the tree T is not a faithful compilation of the operation)
-	findingUnionTypename = "C02-plan-union-typename-hoisted"
-	findingCopyPossible  = "C02-plan-object-copy-drops-possible-types"
+	findingUnionTypename      = "C02-plan-union-typename-hoisted"
+	findingCopyPossible       = "C02-plan-object-copy-drops-possible-types"
 	findingConcreteNoTypename = "C02-concrete-object-without-typename-drops-conditioned-fields"
 	findingMergeScalars       = "C02-plan-merge-scalars-mixes-type-conditions"
 	findingMergeNestedList    = "C02-plan-merge-nested-list-drops-selection"
@@ -36,11 +38,33 @@ const (
 	findingRootNotObject      = "C02-subgraph-data-not-object-aborts-request"
 )
 
+// driver modes
+type mode int
+
+const (
+	modeResolvable      mode = iota // driver (i): NewResolvable(nil, {}).Init + Resolve — the anchor
+	modeEngine                      // driver (ii): execution/engine + fake subgraph (adds the loader merge)
+	modeValueCompletion             // driver (i) with ApolloCompatibilityValueCompletionInExtensions: clauses 1-2 only
+)
+
 var resolvablePart = pbt.Part[Case]{Name: "resolvable", Quick: 30000, Thorough: 500000, Gen: genCase(false),
-	Check: func(c Case, o *pbt.Rec) pbt.Verdict { return checkCase(c, o, false) }}
+	Check: func(c Case, o *pbt.Rec) pbt.Verdict { return checkCase(c, o, modeResolvable) }}
 
 var enginePart = pbt.Part[Case]{Name: "engine", Quick: 8000, Thorough: 120000, Gen: genCase(true),
-	Check: func(c Case, o *pbt.Rec) pbt.Verdict { return checkCase(c, o, true) }}
+	Check: func(c Case, o *pbt.Rec) pbt.Verdict { return checkCase(c, o, modeEngine) }}
+
+var valueCompletionPart = pbt.Part[Case]{Name: "value-completion", Quick: 4000, Thorough: 60000, Gen: genCase(false),
+	Check: func(c Case, o *pbt.Rec) pbt.Verdict { return checkCase(c, o, modeValueCompletion) }}
+
+func partMode(name string) mode {
+	switch name {
+	case enginePart.Name:
+		return modeEngine
+	case valueCompletionPart.Name:
+		return modeValueCompletion
+	}
+	return modeResolvable
+}
 
 func newModel(s *gast.Schema, op string) (*model, string) {
 	doc, errs := gqlparser.LoadQuery(s, op)
@@ -173,7 +197,8 @@ func recogniseDupPath(r replacement, errs []errEntry) bool {
 	return false
 }
 
-func checkCase(c Case, o *pbt.Rec, engine bool) pbt.Verdict {
+func checkCase(c Case, o *pbt.Rec, md mode) pbt.Verdict {
+	engine := md == modeEngine
 	if c.GenErr != "" {
 		o.Discard("generator-produced-invalid-operation")
 		return pbt.OK
@@ -225,7 +250,7 @@ func checkCase(c Case, o *pbt.Rec, engine bool) pbt.Verdict {
 			o.Discard("root-not-object-for-driver-i")
 			return pbt.OK
 		}
-		r = renderResolvable(pl.resp, []byte(c.Data))
+		r = renderResolvable(pl.resp, []byte(c.Data), resolve.ResolvableOptions{ApolloCompatibilityValueCompletionInExtensions: md == modeValueCompletion})
 		if r.initErr != "" {
 			return pbt.Bad("Resolvable.Init refused an object document: %s", r.initErr)
 		}
@@ -268,6 +293,18 @@ func checkCase(c Case, o *pbt.Rec, engine bool) pbt.Verdict {
 	}
 
 	res := m.check(jEff, r.out)
+	if md == modeValueCompletion {
+		// errors are moved to extensions.valueCompletion in this mode: only clauses 1 (valid
+		// envelope) and 2 (type safety, exact keys) are demanded
+		var keep []violation
+		for _, v := range res.viol {
+			switch v.kind {
+			case "envelope", "kind", "null-at-nonnull", "key-missing", "key-unselected", "key-duplicate", "abstract-unknown-type-rendered":
+				keep = append(keep, v)
+			}
+		}
+		res.viol, res.uncovered = keep, nil
+	}
 	uf := m.faithful(pl.resp, jEff)
 	for _, u := range uf {
 		o.Label("plan:unfaithful:" + u.kind)
